@@ -1779,6 +1779,12 @@ fn verify_nsec(
         );
     };
 
+    // If the next name of the covering record is below the query name, the query name is an empty
+    // non-terminal: it exists (RFC 4592 section 2.2.2, RFC 8020), so the record can prove neither a
+    // name error nor that a wildcard expansion was legitimate.
+    let query_name_is_ent =
+        is_strict_descendant(covering_nsec_data.next_domain_name(), &query.name);
+
     // Identify the names that exist (including names of empty non terminals) that are parents of
     // the query name. Pick the longest such name, because wildcard synthesis would start looking
     // for a wildcard record there.
@@ -1854,7 +1860,17 @@ fn verify_nsec(
     match find_nsec_covering_record(soa_name, &wildcard_name, nsecs) {
         // For NXDomain responses, we've already proved the record does not exist. Now we just need to prove
         // the wildcard name is covered.
-        Some((_, _)) if response_code == ResponseCode::NXDomain && !have_answer => {
+        // The wildcard name must not be an empty non-terminal either (then the correct response is
+        // a wildcard no data response, not a name error).
+        Some((_, wildcard_nsec_data))
+            if response_code == ResponseCode::NXDomain
+                && !have_answer
+                && !query_name_is_ent
+                && !is_strict_descendant(
+                    wildcard_nsec_data.next_domain_name(),
+                    &wildcard_name,
+                ) =>
+        {
             nsec1_yield(Proof::Secure, "no direct match, no wildcard")
         }
         // For wildcard expansion responses, we need to prove there are no closer matches and no exact match.
@@ -1862,6 +1878,7 @@ fn verify_nsec(
         Some((_, _))
             if response_code == ResponseCode::NoError
                 && have_answer
+                && !query_name_is_ent
                 && no_closer_matches(&query.name, soa_name, nsecs, wildcard_base_name.as_ref())
                 && find_nsec_covering_record(soa_name, &query.name, nsecs).is_some() =>
         {
@@ -1941,6 +1958,11 @@ fn no_closer_matches(
     }
 
     true
+}
+
+/// Returns true if `name` is a strict descendant of `ancestor`.
+fn is_strict_descendant(name: &Name, ancestor: &Name) -> bool {
+    ancestor.zone_of(name) && name != ancestor
 }
 
 /// Find the NSEC record covering `test_name`, if any.
